@@ -220,7 +220,7 @@ impl Property for C06 {
         vec!["paging writes use odd ports with A15=0, A1=0 and A5-A7 set (no other device selected); decoys use A15=1 or A1=1", "the 8 bytes of bank 2 that hold the stub are not written by the history (they are restored after each instruction-level op)", "instruction-level op: instructions that read a port, or write an even port that also matches the paging decode, are don't-cares (values adopted from the machine); F3/F5, MEMPTR and Q are not compared (C01)"]
     }
     fn expected_probes(&self) -> Vec<&'static str> {
-        vec!["write_after_lock", "alias_bank5_at_c000", "alias_bank2_at_c000", "write_to_rom", "decoy_port", "sweep", "host_rom", "host_rom_midrun", "snapshot_loaded_midrun", "snapshot_rejected_midrun", "paging_on_48k", "im2_vector_fetch", "paging_by_other_out_forms"]
+        vec!["write_after_lock", "alias_bank5_at_c000", "alias_bank2_at_c000", "write_to_rom", "decoy_port", "sweep", "host_rom", "host_rom_midrun", "snapshot_loaded_midrun", "snapshot_rejected_midrun", "paging_on_48k", "im2_vector_fetch", "paging_by_other_out_forms", "screenshot_loaded_midrun"]
     }
 
     fn gen(&self, rng: &mut Rng, tier: Tier, _idx: u64) -> Scenario {
@@ -276,6 +276,9 @@ impl Property for C06 {
                 18 => {
                     if rng.chance(1, 8) {
                         sc.op("rej", &[rng.range(0, 255)]);
+                    } else if rng.chance(1, 8) {
+                        // the host loads a screenshot (SCR): bank 5 gets the picture, nothing else of the map moves
+                        sc.op("scr", &[rng.range(0, 1 << 30), *rng.pick(&[0i64, 1, 100, 4096])]);
                     } else if rng.chance(1, 6) {
                         sc.op("snap", &[rng.range(0, 255)]);
                     } else if rng.chance(1, 6) {
@@ -482,6 +485,28 @@ impl Property for C06 {
                         let a = (w * PAGE as u32 + 0x0555) as u16;
                         if e.peek(a) != m.read(a) {
                             return Err(Fail::new("C06.rejected_load_map", &format!("machine={},window={}", machine, w), format!("after a rejected snapshot file address {:04X} reads {:02X}, expected {:02X}", a, e.peek(a), m.read(a))));
+                        }
+                    }
+                }
+                "scr" => {
+                    ctx.probe("screenshot_loaded_midrun");
+                    let data = Rng::new(op.arg(0) as u64 ^ 0x5C8).bytes(6912);
+                    let plan = crate::host::AssetPlan { max_chunk: op.arg(1).max(0) as usize, ..Default::default() };
+                    if let Err(x) = e.load_screen(rustzx_core::host::Screen::Scr(SimAsset::new(data.clone(), plan).0)) {
+                        return Err(Fail::new("C06.load_screen", &format!("machine={}", machine), format!("load_screen failed on a well-formed SCR file: {:?}", x)));
+                    }
+                    // what the loader documents: the picture goes to the bank at 0x4000, the CPU is parked in a
+                    // `JP 0x8000` loop written at 0x8000 (bank 2); paging, lock and every other byte stay
+                    m.banks[5][..6912].copy_from_slice(&data);
+                    // the parking loop must be there; then the harness puts its own stub back over it
+                    if e.verif_ram_page(phys_page(m128, 2).unwrap())[..3] != [0xC3, 0x00, 0x80] {
+                        return Err(Fail::new("C06.load_screen_map", &format!("machine={},window=2", machine), "after load_screen the JP 0x8000 loop is not at 0x8000 in bank 2".into()));
+                    }
+                    e.verif_ram_page(phys_page(m128, 2).unwrap())[..stub.len()].copy_from_slice(&stub);
+                    for w in 0..4u32 {
+                        let a = (w * PAGE as u32 + 0x1C55) as u16;
+                        if e.peek(a) != m.read(a) {
+                            return Err(Fail::new("C06.load_screen_map", &format!("machine={},window={}", machine, w), format!("after load_screen address {:04X} reads {:02X}, expected {:02X}", a, e.peek(a), m.read(a))));
                         }
                     }
                 }
